@@ -386,7 +386,20 @@ class RangeFiles:
 _ETAGS = {}
 
 
-def range_request(files, size, k, method, has_range, value, inm, ims):
+def http_date(t, fmt):
+    """The instant t in one of the HTTP-date spellings of StaticRange.Fmts."""
+    import email.utils
+    import time
+    g = time.gmtime(t)
+    if fmt == "rfc850":
+        return time.strftime("%A, %d-%b-%y %H:%M:%S GMT", g)
+    if fmt == "asctime":
+        return time.strftime("%a %b ", g) + "%2d" % g.tm_mday + time.strftime(" %H:%M:%S %Y", g)
+    s = email.utils.formatdate(t, usegmt=True)
+    return s.replace("GMT", "-0000") if fmt == "nozone" else s
+
+
+def range_request(files, size, k, method, has_range, value, inm, ims, fmt="imf"):
     """One GET/HEAD for the (size, k) file with the abstract validators made concrete."""
     import email.utils
     name = files.ensure(size, k)
@@ -403,10 +416,8 @@ def range_request(files, size, k, method, has_range, value, inm, ims):
         hdrs.append(("If-None-Match", {"match": etag, "differ": '"nomatch"', "star": "*", "weak": "W/" + etag,
                                         "list": '"x", ' + etag, "listdiffer": '"x", W/"y"'}[inm]))
     if ims != "none":
-        hdrs.append(("If-Modified-Since", {"before": email.utils.formatdate(MTIME - 1, usegmt=True),
-                                            "equal": email.utils.formatdate(MTIME, usegmt=True),
-                                            "after": email.utils.formatdate(MTIME + 3600, usegmt=True),
-                                            "garbage": "yesterday"}[ims]))
+        hdrs.append(("If-Modified-Since", {"before": http_date(MTIME - 1, fmt), "equal": http_date(MTIME, fmt),
+                                            "after": http_date(MTIME + 3600, fmt), "garbage": "yesterday"}[ims]))
     if has_range:
         hdrs.append(("Range", text_of(value)))
     return http().request(key, factory, method, "/static/" + name, hdrs)
